@@ -107,6 +107,23 @@ def clause_rollback_releases(prog, rep):
             og = A.origins(prog, f, rl.args[-1]["p"][0], scope=None, max_frames=0) if "p" in rl.args[-1] else None
             if og and og.has_call(lambda x: x.name in ("split_off", "drain", "truncate", "pop_back")):
                 ok = True
+        # copy provenance of the released name: a field of the element iterated out of the split-off suffix
+        for rl in rels:
+            if "p" not in rl.args[-1]:
+                continue
+            pr = A.producers(prog, f, rl.args[-1]["p"][0], scope=None, max_frames=0)
+            names = sorted(set(x.name for x in pr["calls"]))
+            elem = bool(pr["calls"]) and all(x.name == "next" for x in pr["calls"]) and "snapshot_name" in pr["fields"]
+            src_ok = False
+            for x in pr["calls"]:
+                if x.name == "next" and x.args and "p" in x.args[0]:
+                    og2 = A.origins(prog, f, x.args[0]["p"][0], scope=None, max_frames=0)
+                    if og2.has_call(lambda y: y.name in ("split_off", "drain")):
+                        src_ok = True
+            rep.check(elem and src_ok, "rollback-discards-suffix", f.label() + "/released-name",
+                      "each release names the split-off element's own snapshot_name",
+                      "the name passed to release_group_snapshot is produced by %s, not by the element iterated out of the split-off suffix: the "
+                      "superseded snapshots stay in storage" % names, rl.loc())
         rep.check(bool(sp) and ok, "rollback-discards-suffix", f.label(),
                   "snapshots taken after the rollback target are removed from the queue and released in storage",
                   "after a rollback the later snapshots are not split off and released (they outlive the branch they belong to)", rb[0].loc())
